@@ -77,6 +77,8 @@ def full_snapshot(ep):
         snap[id(sa)] = S.snap_ike(sa)
         if sa.new_ike_sa is not None:
             snap[('succ', id(sa.new_ike_sa))] = S.snap_ike(sa.new_ike_sa)
+    # the ORDER of the table is state as well: look-ups by peer address or CHILD_SA SPI take the first match
+    snap['table'] = {'order-of-the-ike-sa-table': tuple(id(sa) for sa in ep.ctl.ike_sas)}
     return snap
 
 
@@ -85,6 +87,12 @@ def diff_snap(b, a):
     for k in b:
         if k not in a:
             out.append(f'ike-sa-removed:{b[k]["state"]}')
+            continue
+        if k == 'table':
+            # (relative order of the IKE_SAs that exist before and after: a fresh half-open responder object at the end is not a re-ordering)
+            bo, ao = b[k]['order-of-the-ike-sa-table'], a[k]['order-of-the-ike-sa-table']
+            if [i for i in bo if i in ao] != [i for i in ao if i in bo]:
+                out.append('order-of-the-ike-sa-table')
             continue
         for f in b[k]:
             if b[k][f] != a[k][f]:
